@@ -591,5 +591,6 @@ def run(ctx):
     rule_run(ctx, repo)
     rule_sweep(ctx, repo)
     rule_fresh(ctx, repo)
-    from rules import c08_sweep
+    from rules import c08_sweep, c08_derived
     c08_sweep.run_rule(ctx, repo)
+    c08_derived.run_rule(ctx, repo)
